@@ -5,7 +5,7 @@
     helper defined exactly once in the file or its imports, no self import) are evaluated in Coq on the
     parsed files. Dart itself is never executed (no SDK): DartSem covers the enum conversions only. *)
 From Coq Require Import List String ZArith Bool.
-From GM Require Import Base.Result Facts.GoFacts Facts.Ana Model.Enums Model.Fields Model.Classify Model.Names Model.SqlTypes Model.Dart Proofs.C10 Proofs.C06 Proofs.C06t.
+From GM Require Import Base.Result Facts.GoFacts Facts.Ana Model.Enums Model.Fields Model.Classify Model.Names Model.SqlTypes Model.Dart Proofs.C10 Proofs.C06 Proofs.C06t Proofs.C06c.
 From GM Require Import Base.StrOrd Model.DartGen.
 Import ListNotations.
 Local Open Scope string_scope.
@@ -68,10 +68,23 @@ Proof. exact imports_of_set. Qed.
     to (class, typedef, enum, JSON helpers of a type it uses, union it implements) is emitted in its own file or in a
     file for which an import edge was recorded *)
 Theorem C06_links_closed_means_every_reference_resolves : forall st, links_closed st = true ->
-  forall d m, In d (ds_decls st) -> In m (dd_mentions d) ->
+  forall d m, In d (ds_decls st) -> In m (dd_mentions d ++ dd_impl d) ->
   exists d', In d' (ds_decls st) /\ dd_id d' = m
              /\ (dd_file d' = dd_file d \/ (In (dd_file d, dd_file d') (ds_imps st) /\ dd_file d' <> dd_file d)).
 Proof. exact links_closed_sound. Qed.
+
+(** closure of the traversal, for every root directory, program, analysis graph, fuel and source list: when the model
+    of dart.Generate succeeds, every declaration that a declaration of the output refers to through a type it uses
+    (field, element, key, underlying type, union member) is emitted, in the same file or in a file for which an
+    import edge of that file was recorded - recursive types, types shared by several files and anonymous containers
+    included. (The unions a class implements are not covered: see the open finding dart-implements-union-not-emitted;
+    they are part of the link condition computed on every run.) *)
+Theorem C06_traversal_output_is_linked : forall root pr nodes F source st,
+  dart_run root pr nodes F source = Ok st ->
+  forall d m, In d (ds_decls st) -> In m (dd_mentions d) ->
+  exists d', In d' (ds_decls st) /\ dd_id d' = m
+             /\ (dd_file d' = dd_file d \/ In (dd_file d, dd_file d') (ds_imps st)).
+Proof. exact dart_run_closed. Qed.
 
 Print Assumptions C06_keys_and_constructor_arguments.
 Print Assumptions C06_enum_value_table_roundtrip.
@@ -82,3 +95,4 @@ Print Assumptions C06_struct_routines_use_the_go_keys.
 Print Assumptions C06_import_block.
 Print Assumptions C06_import_block_depends_on_the_edge_set_only.
 Print Assumptions C06_links_closed_means_every_reference_resolves.
+Print Assumptions C06_traversal_output_is_linked.
